@@ -16,7 +16,10 @@ RULE = ("configs drawn from one PRNG: PWLCalibration with 2-7 keypoints (dyadic/
         "random interior, just outside, far outside (+-2^40), at the missing value; a few call-time error configs; "
         "a separate small stream with |logit| in 100..300 (oracle only, known finding F-C05-a); "
         "CategoricalCalibration with 2-8 buckets, units 1-3, default_input_value none/outside/in-range, all "
-        "categories + default + out-of-range. Non-trivial = non-zero kernel and some input strictly between two "
+        "categories + default + out-of-range, all units of a row through the model's callUnits (op cat.layer), a few "
+        "input tensors whose column count cannot be broadcast (both sides InvalidArgument), order clause on the real "
+        "outputs (kernel[i] <= kernel[j] => f(i) <= f(j)); split_outputs: the LIST the real layer returns is compared "
+        "tensor by tensor with the model's layerOutput (op pwl.layerout). Non-trivial = non-zero kernel and some input strictly between two "
         "keypoints (pwl) / non-zero kernel (categorical); distinct = (config class, kernel kind, case hash).")
 ASSUMPTIONS = ["float64 for fixed keypoints (rtol 1e-9*scale), float32 where the code hard-casts (learned_interior: "
                "tf.ones() float32 in compute_interpolation_weights; CategoricalCalibration: tf.one_hot float32) "
@@ -204,9 +207,11 @@ def run_real_pwl(case, rng=None):
     if case["split"]:
       real["shape_ok"] = isinstance(y, list) and len(y) == case["units"] and all(
           tuple(t.shape) == (x.shape[0], 1) for t in y)
+      real["tensors"] = [t.numpy() for t in y] if isinstance(y, list) else [y.numpy()]
       y = np.concatenate([t.numpy() for t in y], axis=1)
     else:
       y = y.numpy()
+      real["tensors"] = [y]
       real["shape_ok"] = tuple(y.shape) == (x.shape[0], case["units"])
     real["y"], real["err"] = y, None
   except Exception as e:
@@ -228,6 +233,8 @@ def pwl_lines(case, real):
   for u in range(units):
     lines.append("pwl.keypoints %s %d %d %s %s" % (
         frl(case["kps"]), case["learned"], case["cyclic"], frl(case["kernel"][u]), frl(wss[u] if wss else [])))
+  # what `call` RETURNS (one (B, units) tensor, or `units` (B, 1) tensors when units > 1 and split_outputs)
+  lines.append("pwl.layerout " + lines[0][len("pwl.layer "):] + " %d" % case["split"])
   return lines
 
 
@@ -387,6 +394,23 @@ def check_pwl(ctx, case, real, replies):
     ctx.fail("finite", key, case, dict(y=y, keypoints_inputs=kin), "non-finite output or keypoints")
   if not real["shape_ok"]:
     ctx.fail("shape", key, case, list(np.shape(y)), "output shape / split_outputs")
+  # ---------------- the returned STRUCTURE vs the model's `layerOutput` (split_outputs)
+  if not huge and all_finite and not replies[-1].startswith("ERR"):
+    ctx.count("pwl-returned:%s" % ("split-list" if (case["split"] and units > 1) else "one-tensor"))
+    model_ex = [[parse_rats(t) for t in ex.split(";")] for ex in replies[-1].split("|")]    # [b][tensor][col]
+    tens = real["tensors"]
+    ok = all(len(ex) == len(tens) for ex in model_ex) and len(model_ex) == y.shape[0]
+    if ok:
+      for b, ex in enumerate(model_ex):
+        for t, row in enumerate(ex):
+          rr = tens[t][b].ravel()
+          if len(rr) != len(row):
+            ok = False
+    if not ok:
+      ctx.disagree("pwl.layer_output_structure", case, [list(t.shape) for t in tens],
+                   [len(model_ex), [len(r) for r in model_ex[0]] if model_ex else None], "list / tensor structure")
+    else:
+      ctx.agree("pwl.layer_output_structure")
   nz = any(v != 0 for colk in case["kernel"] for v in colk)
   ctx.case(sig=(cls, case["kkind"], case["lkind"], hash(y.tobytes()) % 997), nontrivial=between and nz,
            sample=dict(case=case, y=y, keypoints_inputs=kin, keypoints_outputs=kout))
@@ -401,7 +425,9 @@ def gen_cat_case(rng):
   kkind = rng.choice(VALUE_KINDS + ["zero"])
   kernel = [[Fraction(0) if kkind == "zero" else q32(gen_value(rng, kkind)) for _ in range(n)] for _ in range(units)]
   mode = "single" if units == 1 else rng.choice(["single", "per_unit"])
-  cols = units if mode == "per_unit" else 1
+  if rng.random() < 0.04:
+    mode = "bad"                      # a column count that cannot be broadcast against the kernel
+  cols = units if mode == "per_unit" else (units + rng.randint(1, 2) if mode == "bad" else 1)
   xs = []
   for _ in range(cols):
     pts = list(range(n)) + ([default] * 2 if default is not None else []) + [n + 5, -7, rng.randrange(n)]
@@ -439,10 +465,17 @@ def run_real_cat(case):
 
 def cat_lines(case):
   lines = []
+  d = "none" if case["default"] is None else str(case["default"])
+  B = len(case["x"][0])
+  # all units of every example through the model's `callUnits` (broadcast / per-unit columns / bad shapes)
+  lines.append("cat.layer %s %s %s" % (frl2(case["kernel"]), d,
+                                       ";".join(",".join(str(col[b]) for col in case["x"]) for b in range(B))))
+  if case["input_mode"] == "bad":
+    return lines
   for u in range(case["units"]):
     col = u if case["input_mode"] == "per_unit" else 0
     for x in case["x"][col]:
-      lines.append("cat.call %s %s %d" % (frl(case["kernel"][u]), "none" if case["default"] is None else str(case["default"]), x))
+      lines.append("cat.call %s %s %d" % (frl(case["kernel"][u]), d, x))
   return lines
 
 
@@ -450,12 +483,29 @@ def check_cat(ctx, case, real, replies):
   cls = "cat:u%d:%s:default-%s:split%d" % (case["units"], case["input_mode"], case["dmode"], case["split"])
   key = dict(layer="categorical", cls=cls)
   ctx.count(cls.rsplit(":", 1)[0])
+  layer_reply, replies = replies[0], replies[1:]
+  if case["input_mode"] == "bad":
+    # neither a single column nor one per unit: both sides must refuse alike (InvalidArgumentError)
+    ctx.case(sig=(cls, "bad-shape", real["err"]), nontrivial=True, sample=case)
+    model_err = layer_reply if layer_reply.startswith("ERR") else "ok"
+    if model_err != (real["err"] or "ok"):
+      ctx.disagree("categorical.call.errors", case, real["err"] or "ok", model_err)
+    else:
+      ctx.agree("categorical.call.errors")
+    return
   if real["err"] is not None:
     ctx.fail("raises", key, case, real["err"])
     ctx.case(sig=(cls, "err"), sample=case)
     return
   y = real["y"]
   n, B = case["n"], len(case["x"][0])
+  if layer_reply.startswith("ERR"):
+    ctx.disagree("categorical.layer", case, y, layer_reply, "model rejects, code accepts")
+  else:
+    rows = parse_rats2(layer_reply)
+    for u in range(case["units"]):
+      ctx.compare("categorical.layer", case, y[:, u], [r[u] for r in rows], max_abs([float(v) for v in case["kernel"][u]]),
+                  rtol=1e-6)
   nz = any(v != 0 for colk in case["kernel"] for v in colk)
   ctx.case(sig=(cls, case["kkind"], hash(y.tobytes()) % 997), nontrivial=nz, sample=dict(case=case, y=y))
   for u in range(case["units"]):
@@ -479,6 +529,19 @@ def check_cat(ctx, case, real, replies):
           ctx.fail("bounded", key, case, yb, "unit %d x=%d" % (u, x))
       else:
         ctx.count("cat-x:out-of-range")
+    # monotone along the order of the category values: kernel[i] <= kernel[j]  =>  f(i) <= f(j), for ALL pairs of
+    # in-range, non-default categories of the batch (the one-hot product is exact: no tolerance)
+    pts = {}
+    for b, x in enumerate(case["x"][col]):
+      if 0 <= x < n and not (case["default"] is not None and x == case["default"]):
+        pts.setdefault(x, float(y[b, u]))
+    for i, yi in pts.items():
+      for j, yj in pts.items():
+        if kern[i] <= kern[j]:
+          ctx.count("cat-pairs:order")
+          if not yi <= yj:
+            ctx.fail("category_order", key, case, [yi, yj],
+                     "unit %d: kernel[%d]=%r <= kernel[%d]=%r but f(%d) > f(%d)" % (u, i, kern[i], j, kern[j], i, j))
   if not real["shape_ok"]:
     ctx.fail("shape", key, case, list(np.shape(y)), "output shape / split_outputs")
 
